@@ -327,21 +327,22 @@ class Cell:
     def __init__(self, em):
         repo = em.repo
         cands = []
+        # fields written while a generator runs (a binder stores, suspends, and restores) - through any receiver: a write
+        # from outside the class is for the ownership rule to report, not a reason to overlook the field
+        gen_writes = {n.attr for m in repo.all_functions(('engine',)) if m.is_generator for n in own_nodes(m.node)
+                      if isinstance(n, ast.Attribute) and isinstance(n.ctx, ast.Store)}
         for c in repo.all_classes(('engine',)):
             gv = c.methods.get('get_value')
             if gv is None:
                 continue
-            reads = {n.attr for n in own_nodes(gv.node) if isinstance(n, ast.Attribute) and is_name(n.value, 'self') and isinstance(n.ctx, ast.Load)}
-            # written outside the constructor - through any receiver, anywhere in the engine: a write from outside the class
-            # is for the ownership rule to report, not a reason to overlook the field
-            writes = {n.attr for m in repo.all_functions(('engine',)) for n in own_nodes(m.node)
-                      if isinstance(n, ast.Attribute) and isinstance(n.ctx, ast.Store) and
-                      not (m.name == '__init__' and is_name(n.value, m.params[0] if m.params else 'self'))}
-            if reads & writes:
-                cands.append((c, tuple(sorted(reads & writes))))
+            declared = {n.attr for m in c.methods.values() for n in own_nodes(m.node)
+                        if isinstance(n, ast.Attribute) and isinstance(n.ctx, ast.Store) and is_name(n.value, m.params[0] if m.params else 'self')}
+            reads = {n.attr for n in own_nodes(gv.node) if isinstance(n, ast.Attribute) and isinstance(n.ctx, ast.Load)} & declared
+            if reads & gen_writes:
+                cands.append((c, tuple(sorted(reads & gen_writes))))
         if len(cands) != 1:
-            raise AnalysisError('anchor vanished: the binding cell (fields that get_value reads and the class writes outside its '
-                                'constructor) is found in %d classes' % len(cands))
+            raise AnalysisError('anchor vanished: the binding cell (fields of a term class that its get_value reads and that are '
+                                'written while a generator runs) is found in %d classes' % len(cands))
         self.cls, self.fields = cands[0]
         stores = {}
         for f in repo.all_functions(('engine',)):
